@@ -1,5 +1,7 @@
 import Driver.Loop
+import IrohModel.Common.Hex
 import IrohModel.C07.Model
+import IrohModel.C07.AcceptPipeline
 open IrohModel IrohModel.C07
 
 /-!
@@ -112,7 +114,115 @@ def closeViews (order : List Conn) : List (Nat × RegView) :=
       (k.idx, v) :: go rest
   go order
 
+/-! ### accept-pipeline cases (`pipe k=v …`, grammar in `harness/hrelay/src/c07pipe.rs`) -/
+
+namespace PipeDrv
+open IrohModel.C07.Pipeline
+
+def kv (ts : List String) (k : String) : Option String :=
+  (ts.find? (·.startsWith (k ++ "="))).map fun t => (t.drop (k.length + 1)).toString
+
+def hx (s : String) : Option (List UInt8) := bytesOfHex s
+
+def optHex (s : String) : Option (Option (List UInt8)) :=
+  if s == "none" then some none else (hx s).map some
+
+def hexList (s : String) : Option (List (List UInt8)) :=
+  if s == "-" || s == "none" then some [] else (s.splitOn ",").mapM hx
+
+/-- The endpoint key with index `j`, as the harness derives it: only its public key matters to the
+model, and the harness passes every public key it used as a fact (`vp`), so keys are compared as bytes. -/
+def cryptoOfFacts (ts : List String) (chal : List UInt8) : C03.Crypto :=
+  let lst (k : String) : List String := match kv ts k with
+    | some v => if v == "-" then [] else v.splitOn ","
+    | none => []
+  let vp := (lst "vp").filterMap fun e =>
+    match e.splitOn ":" with
+    | [pk, b] => (hx pk).map fun pk => (pk, b == "1")
+    | _ => none
+  let vf := (lst "vf").filterMap fun e =>
+    match e.splitOn ":" with
+    | [pk, m, sg, b] => do some ((← hx pk), (← hx m), (← hx sg), b == "1")
+    | _ => none
+  let dk := ((kv ts "dk").bind hx).getD []
+  { validPoint := fun pk => match vp.find? (·.1 == pk) with | some (_, b) => b | none => false
+    verify := fun pk m sg => match vf.find? (fun e => e.1 == pk && e.2.1 == m && e.2.2.1 == sg) with
+      | some (_, _, _, b) => b | none => false
+    deriveKey := fun c => if c == chal then dk else []
+    -- plain HTTP: the stream cannot export keying material
+    exportKm := fun _ => none }
+
+def frameStr (f : List UInt8) : String := if f.head? == some 0 then "00" else hexOfBytes f
+
+def versionName : C11.Version → String
+  | .v1 => "v1"
+  | .v2 => "v2"
+
+def run (ts : List String) : Option String := do
+  let m ← kv ts "m"
+  let path ← (kv ts "p").bind hx
+  let up ← (kv ts "up").bind optHex
+  let wk ← kv ts "wk"
+  let wv ← (kv ts "wv").bind optHex
+  let wp ← (kv ts "wp").bind hexList
+  let az ← (kv ts "az").bind hexList
+  let q ← (kv ts "q").bind optHex
+  let pl ← (kv ts "pl").bind hx
+  let dec ← kv ts "dec"
+  let hdr ← (kv ts "hdr").bind optHex
+  let chal := ((kv ts "chal").bind hx).getD []
+  let frames := match kv ts "frames" with
+    | some v => if v == "-" then [] else v.splitOn ","
+    | none => []
+  let incoming : List C03.Incoming := frames.filterMap fun f =>
+    if f == "E" then some .ioError else (hx (f.drop 2).toString).map .data
+  let req : Request :=
+    { isGet := m == "GET", path, upgrade := up, wsKey := if wk == "1" then some [1] else none,
+      wsVersion := wv, wsProtocol := wp.head?, clientAuth := hdr, authorizations := az, query := q,
+      pipelined := pl }
+  let ss : Session := { crypto := cryptoOfFacts ts chal, chal, incoming, writeOk := fun _ => true }
+  -- the policy is a function of what it is shown
+  let keyFacts : List (List UInt8) := match kv ts "keys" with
+    | some v => (v.splitOn ",").filterMap hx
+    | none => []
+  let policy : ClientRequest → C03.Access ←
+    if dec == "allow" then some (fun _ => .allow)
+    else if dec == "deny" then some (fun _ => .deny none)
+    else if dec.startsWith "denyr:" then (hx (dec.drop 6).toString).map fun r => fun _ => .deny (some r)
+    else if dec.startsWith "tok:" then
+      (hx (dec.drop 4).toString).map fun t => fun cr => if cr.authToken == some t then .allow else .deny none
+    else if dec.startsWith "key:" then do
+      let j ← (dec.drop 4).toString.toNat?
+      let k ← keyFacts[j]?
+      some fun cr => if cr.endpointId == k then .allow else .deny none
+    else none
+  let out := acceptPipeline req ss policy 0
+  let http := match out.http with
+    | .switching _ => "101"
+    | .badRequest _ => "400"
+    | .notRelay => "other"
+  let proto := match out.http with
+    | .switching v => hexOfBytes v.name
+    | _ => "-"
+  let framesS := if out.frames.isEmpty then "-" else ",".intercalate (out.frames.map frameStr)
+  let seen := match out.shown with
+    | some cr =>
+      let tok := match cr.authToken with
+        | some t => hexOfBytes t
+        | none => "none"
+      s!"{hexOfBytes cr.endpointId}:{versionName cr.version}:{tok}"
+    | none => "-"
+  let reg := match out.registered with
+    | some r => s!"{hexOfBytes r.owner}:{versionName r.version}"
+    | none => "-"
+  some s!"http={http} proto={proto} | frames={framesS} | seen={seen} | reg={reg}"
+
+end PipeDrv
+
 def handleLine (payload : String) : String :=
+  if payload.startsWith "pipe " then
+    (PipeDrv.run ((payload.splitOn " ").filter (· ≠ ""))).getD "bad-input"
+  else
   match payload.splitOn ";" with
   | [] => "bad-input"
   | order :: specs =>
